@@ -36,12 +36,15 @@ Definition valid_utf8 (bs : list N) : bool := valid_utf8_fuel (S (length bs)) bs
 
 (* BufRead::lines on bytes: split after every '\n'; a final segment without '\n' is a line too; the
    '\n' and a '\r' directly before it are stripped *)
+(* the finished line (held reversed): drop a '\r' directly before the '\n' *)
+Definition finish_line (acc : list N) : list N :=
+  match acc with c :: acc' => if N.eqb c 13 then rev acc' else rev acc | [] => [] end.
+
 Fixpoint split_lines (bs : list N) (acc : list N) : list (list N) :=
   match bs with
   | [] => match acc with [] => [] | _ => [rev acc] end
   | b :: r =>
-      if N.eqb b 10 then
-        (match acc with 13 :: acc' => rev acc' | _ => rev acc end) :: split_lines r []
+      if N.eqb b 10 then finish_line acc :: split_lines r []
       else split_lines r (b :: acc)
   end.
 Definition lines_of (bs : list N) : list (list N) := split_lines bs [].
